@@ -268,8 +268,8 @@ theorem matcher_iff (aM : MatcherArgs) (t : Option TokObj) (toks : TokFn) (sim :
     (aM.outSimScore = true → C13.ScoreOf P (keyOf l aM.lKey ls) (keyOf r aM.rKey rs)
       (scoreCell (C05.simValue (C05.tokOf t toks) sim (valOf l aM.lAttr ls) (valOf r aM.rAttr rs)))) := by
   have hV := (validateMatcher_ok_iff aM t C l r).1 hv
-  have hlk := hV.lKeyValid.1
-  have hrk := hV.rKeyValid.1
+  have hlk := hV.lKeyValid.nodup
+  have hrk := hV.rKeyValid.nodup
   have hkeyL : ∀ s₁ ∈ l.rows, ∀ s₂ ∈ l.rows, keyOf l aM.lKey s₁ = keyOf l aM.lKey s₂ → s₁ = s₂ :=
     fun s₁ h₁ s₂ h₂ he => List.inj_on_of_nodup_map hlk h₁ h₂ he
   have hkeyR : ∀ s₁ ∈ r.rows, ∀ s₂ ∈ r.rows, keyOf r aM.rKey s₁ = keyOf r aM.rKey s₂ → s₁ = s₂ :=
